@@ -1771,6 +1771,8 @@ def PaddedString(length, encoding):
     """
     macro = StringEncoded(FixedSized(length, NullStripped(GreedyBytes, pad=encodingunit(encoding))), encoding)
     def _emitfulltype(ksy, bitwise):
+        if len(encodingunit(encoding)) == 1:
+            return dict(size=length, type="str", pad_right=0, encoding=encoding)
         return dict(size=length, type="strz", encoding=encoding)
     macro._emitfulltype = _emitfulltype
     return macro
